@@ -213,4 +213,73 @@ PROPS["C04"] = dict(
            dict(engine="e1", harness="c04_termination", weight=2)],
 )
 
+PROPS["C02"] = dict(
+    level="model_checking",
+    rule="cases: cautious operator programs (overlapping neighbourhoods "
+         "acquired in opposite orders, re-acquisition of an owned object, "
+         "voluntary aborts, pushes before/after the last acquire) over 3 "
+         "lockable objects carrying a plain owner stamp and a non-commutative "
+         "value, through for_each with conflict detection on 5 worklists "
+         "(incl. OBIM and Deterministic), 2-3 threads, fake [2] [1,1] [3] "
+         "[2,1] [1,1,1] machines (3 sockets select the basic abort policy). "
+         "Executions = all schedules with <= bound deviations. Oracle on each "
+         "execution: (a) an iteration's stamps on everything it owns are "
+         "intact at its commit point and after its update (no double owner); "
+         "(b) every new attempt starts with nothing owned by its thread's "
+         "context and an empty neighbourhood list; (c) after the loop no "
+         "object is owned or locked; (d) final values equal a serial replay "
+         "of the committed iterations in commit-log order; plus C01 "
+         "conservation; non-trivial = distinct trace hash among executions "
+         "with >= 1 deviation",
+    bound_note="per-cell bound_completed in coverage.cells; a check-then-act "
+               "lock bug needs 2 deviations (thorough tier)",
+    assumptions=E1_ASSUME,
+    deadline=dict(quick=200, thorough=3000),
+    technique="stateless model checking of the implementation: exhaustive "
+              "deviation-bounded schedule enumeration (gsched) of for_each "
+              "with conflict detection",
+    level_text="every schedule with <= d deviations (d=1 quick, 1-3 "
+               "thorough) of 2-3 workers running overlapping cautious "
+               "operators through the real lock manager / abort paths; "
+               "ownership, abort cleanliness and serialisability are checked "
+               "on each",
+    level_note="bounded: <=3 threads, <=6 items, 3 objects; plain stamp "
+               "accesses become scheduling points through race-directed "
+               "promotion when a lock stops protecting them",
+    design_ref="DESIGN.md 2, 7/C02",
+    parts=[dict(engine="e1", harness="c02_isolation")],
+)
+
+PROPS["C08"] = dict(
+    level="model_checking",
+    rule="cases: (a) BulkSynchronous<PerSocketChunkFIFO<1>> / <ChunkLIFO<2>> "
+         "with items tagged by creation round; (b) OrderedByIntegerMetric "
+         "with_barrier<true> (plain, with_monotonic, without back-scan "
+         "prevention, with_descending) with monotone operator programs "
+         "(dense, sparse and same-level priorities); conflict detection "
+         "off/on; 2-3 threads on fake [2] [1,1] [3] [2,1] machines. "
+         "Executions = all schedules with <= bound deviations. Oracle from "
+         "the ledger on each execution: (a) no item of a later round starts "
+         "before every item of an earlier round committed; (b) no item "
+         "starts while an existing item of strictly higher urgency is "
+         "uncommitted; plus conservation; non-trivial = distinct trace hash "
+         "among executions with >= 1 deviation",
+    bound_note="per-cell bound_completed in coverage.cells",
+    assumptions=E1_ASSUME,
+    deadline=dict(quick=220, thorough=3000),
+    technique="stateless model checking of the implementation: exhaustive "
+              "deviation-bounded schedule enumeration (gsched) of the "
+              "level-synchronous schedulers",
+    level_text="every schedule with <= d deviations (d=1 quick, 1-2 "
+               "thorough) of the real BulkSynchronous and barrier-OBIM "
+               "worklists inside for_each; level separation and conservation "
+               "are checked on each execution",
+    level_note="bounded: <=3 threads, <=6 items; 'committed' is observed at "
+               "the operator's commit point (slightly earlier than the "
+               "executor's flush), which can only hide, never invent, an "
+               "inversion",
+    design_ref="DESIGN.md 2, 7/C08",
+    parts=[dict(engine="e1", harness="c08_levels")],
+)
+
 NOT_APPLICABLE = {}
